@@ -38,12 +38,15 @@ class ORSet:
         node_id: Identifier for this replica.
     """
 
-    __slots__ = ("_entries", "_node_id", "_seq")
+    __slots__ = ("_entries", "_node_id", "_removed", "_seq")
 
     def __init__(self, node_id: str):
         self._node_id = node_id
         self._entries: dict[Any, set[tuple[str, int]]] = {}
         self._seq: int = 0
+        # Tombstones: tags observed by a remove; they keep a later merge from
+        # bringing a removed element back.
+        self._removed: set[tuple[str, int]] = set()
 
     @property
     def node_id(self) -> str:
@@ -81,6 +84,7 @@ class ORSet:
             element: The element to remove.
         """
         if element in self._entries:
+            self._removed |= self._entries[element]
             self._entries[element].clear()
 
     def contains(self, element: Any) -> bool:
@@ -106,11 +110,14 @@ class ORSet:
         Args:
             other: Another ORSet to merge from.
         """
+        self._removed |= other._removed
         for element, other_tags in other._entries.items():
             if element not in self._entries:
                 self._entries[element] = set(other_tags)
             else:
                 self._entries[element] |= other_tags
+        for tags in self._entries.values():
+            tags -= self._removed
 
     def to_dict(self) -> dict:
         """Serialize to a plain dict."""
@@ -122,6 +129,7 @@ class ORSet:
             "node_id": self._node_id,
             "seq": self._seq,
             "entries": entries,
+            "removed": [list(tag) for tag in sorted(self._removed)],
         }
 
     @classmethod
@@ -135,6 +143,7 @@ class ORSet:
         s._seq = data["seq"]
         for element, tags in data["entries"].items():
             s._entries[element] = {tuple(tag) for tag in tags}
+        s._removed = {tuple(tag) for tag in data.get("removed", [])}
         return s
 
     def __contains__(self, element: Any) -> bool:
